@@ -32,8 +32,23 @@ emitted with the arms swapped, a chained comparison equals the conjunction of it
 (`acc = 0.0; for …: acc += e`) = `sum(e for …)`, one-expression helpers are inlined, parameters / locals are found by
 ROLE (what they are assigned from, which bound of the result they feed) and get fixed names in the Lean text.  So a
 rename, a reordering of independent statements, an inverted `if`, an extracted or inlined local produce the very
-same Lean text, while any change of an operator, operand, constant or branch still changes it.  The SoC / capacity
-calculators (C18) keep the literal `let`-style translator `Tr`.
+same Lean text, while any change of an operator, operand, constant or branch still changes it.
+
+The three calculators of `_metric_calculator.py` (`SoCCalculator`, `CapacityCalculator`, `PowerBoundsCalculator`) are
+EXECUTED SYMBOLICALLY rather than matched: the loop body of `calculate` is run once per assumption about what is
+missing (which metrics are `None` / which bounds list is empty) with `CTr.decide` settling the tests those assumptions
+decide and `CTr.bind` giving the role-bearing statements their meaning (`<x> = metrics_data[<id>]`, `<m> = <x>.get(
+ComponentMetricId.M)`, `<stamp> = max(<stamp>, …)`, `<list>[, <time>] = <fetch>(…, self._battery_metrics, …)`).  With
+everything present every path must reach the end of the body and move the sample time: that decision tree, locals
+inlined, statement-bodied helpers (`self._scale_soc(…)`, module functions) executed in place with parameter binding and
+early returns, conditional expressions and (SoC) two-argument `min`/`max` expanded into the branches they are, literal
+comparisons folded, is `<x>Step`.  With anything missing the body must `continue` with untouched sums and sample time,
+else `Unsupported`.  The statements after the loop are run with the sample time moved (`<x>Final`) and not moved
+(must give the no-data result).  Running sums are named by what the result does with them; sums the result does not
+read must not be carried between iterations.  The function that builds `PowerBounds(results[0], …)` is found by that
+role (closure, method or static method) and checked path-wise: built exactly when `len(results) == len(<ids>)`,
+`None` (alone or first of a tuple) otherwise.  `a > b` is written `b < a`, chains of ordering tests in chain order, an
+`if` takes the polarity with fewer negations.
 """
 from __future__ import annotations
 
@@ -397,6 +412,10 @@ class CTr:
         self.skip_targets = set(skip_targets or ())
         self.pb_fields = list(pb_fields or [])
         self.depth = 0  # nesting depth of generator binders: a binder is named after its depth, not after a counter
+        self.expand_minmax = False  # `max(a, b)` / `min(a, b)` as the branch they are (so a clamp = its if/elif form)
+        self.helpers: dict[str, tuple[ast.FunctionDef, list[str]]] = {}  # callee source text -> (def, parameters)
+        self.decide = None  # hook: (test, env) -> True / False / None for tests settled by the caller's assumptions
+        self.bind = None  # hook: (statement, env) -> new env, or None if the statement is an ordinary one
 
     # ---- values
     def e(self, n: ast.expr, env: dict) -> str:
@@ -409,8 +428,12 @@ class CTr:
         if isinstance(n, ast.Name):
             if n.id not in env:
                 raise Unsupported(f"name `{n.id}` is not a parameter or a translated local")
-            kind, text = env[n.id]
-            return text if kind == "v" else f"(decide ({text}))"
+            kind = env[n.id][0]
+            if kind == "v":
+                return env[n.id][1]
+            if kind == "p":
+                return f"(decide ({env[n.id][1]}))"
+            raise Unsupported(f"`{n.id}` ({ {'none': 'None', 'o': 'a value the translator does not model'}.get(kind, kind)}) used in arithmetic")
         if isinstance(n, ast.Constant):
             if isinstance(n.value, (int, float)) and not isinstance(n.value, bool):
                 return rat_lit(n.value)
@@ -427,9 +450,9 @@ class CTr:
                     return f"({self.e(n.left, env)} {v} {self.e(n.right, env)})"
             raise Unsupported(f"operator in {src}")
         if isinstance(n, ast.IfExp):
-            test, pol = strip_nots(n.test)
-            a, b = (n.body, n.orelse) if pol else (n.orelse, n.body)
-            return f"(if {self.p(test, env)} then {self.e(a, env)} else {self.e(b, env)})"
+            neg, txt = self.polarity(n.test, env)
+            a, b = (n.orelse, n.body) if neg else (n.body, n.orelse)
+            return f"(if {txt} then {self.e(a, env)} else {self.e(b, env)})"
         if isinstance(n, ast.Subscript) and isinstance(n.slice, ast.Constant) and isinstance(n.slice.value, int) \
                 and not isinstance(n.slice.value, bool) and n.slice.value >= 0:
             return f"({self.e(n.value, env)}.getD {n.slice.value} 0)"
@@ -498,17 +521,45 @@ class CTr:
     # ---- propositions
     _OPS = {ast.Lt: "<", ast.LtE: "≤", ast.Gt: ">", ast.GtE: "≥", ast.Eq: "=", ast.NotEq: "≠"}
 
-    def _links(self, n: ast.Compare, env: dict) -> list[str]:
+    def _links(self, n: ast.Compare, env: dict) -> list[tuple[str, str, str]]:
+        """The links of a comparison chain as (left, symbol, right); `a > b` is written `b < a`, `a >= b` as `b ≤ a`
+        (the same test, also on NaN)."""
         parts, left = [], n.left
         for op, right in zip(n.ops, n.comparators):
             sym = self._OPS.get(type(op))
             if sym is None:
                 raise Unsupported(f"comparison in {ast.unparse(n)}")
-            parts.append(f"{self.e(left, env)} {sym} {self.e(right, env)}")
+            l, r = self.e(left, env), self.e(right, env)
+            if sym in (">", "≥"):
+                l, r, sym = r, l, {">": "<", "≥": "≤"}[sym]
+            parts.append((l, sym, r))
             left = right
         return parts
 
-    def _junct(self, n: ast.expr, neg: bool, env: dict, conj: bool) -> list[str]:
+    @staticmethod
+    def _chain(items: list) -> list:
+        """Conjuncts in canonical order: ordering links that form a chain `a < b`, `b ≤ c`, … are put in chain order
+        (a conjunction of total tests does not depend on the order of its operands)."""
+        idx = [k for k, it in enumerate(items) if isinstance(it, tuple) and it[1] in ("<", "≤")]
+        links = [items[k] for k in idx]
+        if len(links) >= 2:
+            rights = {x[2] for x in links}
+            starts = [x for x in links if x[0] not in rights]
+            if len(starts) == 1:
+                order, cur, left = [starts[0]], starts[0], [x for x in links if x is not starts[0]]
+                while left:
+                    nxt = [x for x in left if x[0] == cur[2]]
+                    if len(nxt) != 1:
+                        break
+                    order.append(nxt[0])
+                    left.remove(nxt[0])
+                    cur = nxt[0]
+                if not left:
+                    for k, x in zip(idx, order):
+                        items[k] = x
+        return [f"{x[0]} {x[1]} {x[2]}" if isinstance(x, tuple) else x for x in items]
+
+    def _junct(self, n: ast.expr, neg: bool, env: dict, conj: bool) -> list:
         """Flattened operands of the conjunction (`conj`) / disjunction that `n` (negated if `neg`) stands for."""
         n, pol = strip_nots(n)
         neg = neg != (not pol)
@@ -521,9 +572,9 @@ class CTr:
             if is_and == conj:
                 return [x for v in n.values for x in self._junct(v, neg, env, conj)]
         if isinstance(n, ast.Compare) and not neg and conj:
-            return self._links(n, env)
+            return list(self._links(n, env))
         if isinstance(n, ast.Compare) and neg and not conj and len(n.ops) > 1:
-            return [f"(¬ ({x}))" for x in self._links(n, env)]
+            return [f"(¬ ({l} {o} {r}))" for l, o, r in self._links(n, env)]
         return [self._p(n, neg, env)]
 
     def _p(self, n: ast.expr, neg: bool, env: dict) -> str:
@@ -543,12 +594,13 @@ class CTr:
         if isinstance(n, ast.BoolOp):
             is_and = isinstance(n.op, ast.And) != neg
             parts = [x for v in n.values for x in self._junct(v, neg, env, is_and)]
+            parts = self._chain(parts) if is_and else [f"{x[0]} {x[1]} {x[2]}" if isinstance(x, tuple) else x for x in parts]
             return "(" + (" ∧ " if is_and else " ∨ ").join(parts) + ")"
         if isinstance(n, ast.Compare):
             links = self._links(n, env)
             if neg and len(links) > 1:  # a chain is the conjunction of its links
-                return "(" + " ∨ ".join(f"(¬ ({x}))" for x in links) + ")"
-            t = "(" + " ∧ ".join(links) + ")"
+                return "(" + " ∨ ".join(f"(¬ ({l} {o} {r}))" for l, o, r in links) + ")"
+            t = "(" + " ∧ ".join(self._chain(list(links))) + ")"
             return f"(¬ {t})" if neg else t
         if isinstance(n, ast.Constant) and isinstance(n.value, bool):
             return "True" if n.value != neg else "False"
@@ -573,48 +625,238 @@ class CTr:
     def p(self, n: ast.expr, env: dict) -> str:
         return self._p(n, False, env)
 
+    def polarity(self, test: ast.expr, env: dict) -> tuple[bool, str]:
+        """(negated?, text): the test or its negation, whichever needs fewer `¬` (ties: the test itself) — so `if not c`,
+        `if not a and not b` and their positive twins with swapped arms give the same term."""
+        pos, neg = self._p(test, False, env), self._p(test, True, env)
+        return (True, neg) if neg.count("¬") < pos.count("¬") else (False, pos)
+
     # ---- statements
     def block(self, stmts: list[ast.stmt], env: dict, ind: str, fall=None, ret=None, cont=None) -> str:
         """`fall(env)` / `cont(env)` / `ret(value, env)` give the Lean text of the result at the three kinds of exit."""
-        return self._show(self._merge(self._tree(stmts, env, fall, ret, cont)), ind)
+        k = Exits(fall=(lambda e: ("leaf", fall(e))) if fall else None,
+                  ret=(lambda v, e: ("leaf", ret(v, e))) if ret else None,
+                  cont=(lambda e: ("leaf", cont(e))) if cont else None)
+        return self.show(self.tree(stmts, env, k), ind)
 
-    # decision tree: ("leaf", text) | ("if", test, env, then-tree, else-tree)
+    def tree(self, stmts: list[ast.stmt], env: dict, k: "Exits") -> tuple:
+        return self._merge(self._tree(stmts, env, k))
+
+    # decision tree: ("leaf", payload) | ("if", condition text, then-tree, else-tree, (test, env) | None)
     def _merge(self, t: tuple) -> tuple:
         """`if a: X elif b: X else: Y` = `if a or b: X else: Y`; `if a: (if b: X else: Y) else: Y` = `if a and b: X else: Y`;
         `if a: X else: X` = `X` — so consecutive guard clauses with the same outcome and one combined test give one term."""
         if t[0] == "leaf":
             return t
-        _, test, env, a, b = t
+        _, txt, a, b, src = t
         a, b = self._merge(a), self._merge(b)
         if a == b:
             return a
-        if b[0] == "if" and b[2] == env and b[3] == a:
-            return self._merge(("if", ast.BoolOp(op=ast.Or(), values=[test, b[1]]), env, a, b[4]))
-        if a[0] == "if" and a[2] == env and a[4] == b:
-            return self._merge(("if", ast.BoolOp(op=ast.And(), values=[test, a[1]]), env, a[3], b))
-        return ("if", test, env, a, b)
 
-    def _show(self, t: tuple, ind: str) -> str:
+        def both(op: type, s1, s2, t1: str, t2: str) -> tuple[str, tuple | None]:
+            if s1 is not None and s2 is not None and s1[1] == s2[1]:
+                node = ast.BoolOp(op=op(), values=[s1[0], s2[0]])
+                return self.p(node, s1[1]), (node, s1[1])
+            return "(" + t1 + (" ∨ " if op is ast.Or else " ∧ ") + t2 + ")", None
+
+        if b[0] == "if" and b[2] == a:
+            txt2, src2 = both(ast.Or, src, b[4], txt, b[1])
+            return self._merge(("if", txt2, a, b[3], src2))
+        if a[0] == "if" and a[3] == b:
+            txt2, src2 = both(ast.And, src, a[4], txt, a[1])
+            return self._merge(("if", txt2, a[2], b, src2))
+        return ("if", txt, a, b, src)
+
+    def show(self, t: tuple, ind: str, leaf=lambda x: x) -> str:
         if t[0] == "leaf":
-            return ind + t[1]
-        _, test, env, a, b = t
-        return (f"{ind}if {self.p(test, env)} then\n" + self._show(a, ind + "  ")
-                + f"\n{ind}else\n" + self._show(b, ind + "  "))
+            return ind + leaf(t[1])
+        return (f"{ind}if {t[1]} then\n" + self.show(t[2], ind + "  ", leaf)
+                + f"\n{ind}else\n" + self.show(t[3], ind + "  ", leaf))
 
-    def _tree(self, stmts: list[ast.stmt], env: dict, fall=None, ret=None, cont=None) -> tuple:
+    def _branch(self, test: ast.expr, env: dict, yes, no) -> tuple:
+        """The node for `if test: yes() else: no()`; a test settled by the caller's assumptions takes one arm only."""
+        if self.decide is not None:
+            test = self.settle(test, env)
+            if isinstance(test, bool):
+                return yes() if test else no()
+        # look through `not` and through locals that merely name a condition
+        pol, tenv = True, env
+        while True:
+            test, q = strip_nots(test)
+            pol = pol == q
+            if isinstance(test, ast.Name) and test.id in tenv and tenv[test.id][0] == "p" and len(tenv[test.id]) > 2:
+                test, tenv = tenv[test.id][2]
+                continue
+            break
+        if self.decide is not None:
+            test = self.settle(test, tenv)
+            if isinstance(test, bool):
+                return (yes() if test else no()) if pol else (no() if test else yes())
+        if isinstance(test, ast.Compare):  # a comparison of two literals is decided here
+            try:
+                links = self._links(test, tenv)
+            except Unsupported:
+                links = []
+            cs = [(self._const(l), o, self._const(r)) for l, o, r in links]
+            if cs and all(a is not None and b is not None for a, _, b in cs):
+                ops = {"<": lambda a, b: a < b, "≤": lambda a, b: a <= b, "=": lambda a, b: a == b, "≠": lambda a, b: a != b}
+                d = all(ops[o](a, b) for a, o, b in cs)
+                return (yes() if d else no()) if pol else (no() if d else yes())
+        neg, txt = self.polarity(test, tenv)
+        src = (test, tenv)
+        if neg:
+            src = (ast.UnaryOp(op=ast.Not(), operand=test), tenv)
+        if pol == (not neg):
+            return ("if", txt, yes(), no(), src)
+        return ("if", txt, no(), yes(), src)
+
+    def settle(self, test: ast.expr, env: dict):
+        """`test` with every part that the caller's assumptions decide (`self.decide`) evaluated: True / False, or the
+        residual test (`False or c` = `c`, `True and c` = `c`)."""
+        d = self.decide(test, env)
+        if d is not None:
+            return d
+        if isinstance(test, ast.UnaryOp) and isinstance(test.op, ast.Not):
+            r = self.settle(test.operand, env)
+            return (not r) if isinstance(r, bool) else (test if r is test.operand else ast.UnaryOp(op=ast.Not(), operand=r))
+        if isinstance(test, ast.BoolOp):
+            is_and = isinstance(test.op, ast.And)
+            rest = []
+            for v in test.values:
+                r = self.settle(v, env)
+                if isinstance(r, bool):
+                    if r != is_and:
+                        return r  # a False conjunct / a True disjunct settles it
+                    continue
+                rest.append(r)
+            if not rest:
+                return is_and
+            return rest[0] if len(rest) == 1 else ast.BoolOp(op=test.op, values=rest)
+        return test
+
+    @staticmethod
+    def _const(text: str) -> Fraction | None:
+        import re
+        m = re.fullmatch(r"\((-?\d+) : Rat\)", text)
+        if m:
+            return Fraction(int(m.group(1)))
+        m = re.fullmatch(r"\(\((-?\d+) : Rat\) / (\d+)\)", text)
+        if m:
+            return Fraction(int(m.group(1)), int(m.group(2)))
+        m = re.fullmatch(r"\(-(.*)\)", text)
+        if m:
+            c = CTr._const(m.group(1))
+            return None if c is None else -c
+        return None
+
+    def value(self, n: ast.expr, env: dict) -> tuple:
+        """The symbolic value of an expression without branching: ("v", term) | ("p", prop, def) | ("none",) | ("t", [..])
+        | ("o",) for what the translator does not model (it may be stored and passed on, never computed with)."""
+        if isinstance(n, ast.Constant) and n.value is None:
+            return ("none",)
+        if isinstance(n, ast.Name) and n.id in env:
+            return env[n.id]
+        if isinstance(n, ast.Tuple):
+            return ("t", [self.value(x, env) for x in n.elts])
+        src = ast.unparse(n)
+        if Tr.is_boolish(n) or (src in self.attrs and self.attrs[src][0] == "p"):
+            try:
+                return ("p", self.p(n, env), (n, dict(env)))
+            except Unsupported:
+                return ("o",)
+        try:
+            return ("v", self.e(n, env))
+        except Unsupported:
+            return ("o",)
+
+    def valk(self, n: ast.expr, env: dict, k) -> tuple:
+        """Evaluate `n` and continue with `k(value)` in every branch the evaluation takes: conditional expressions,
+        (with `expand_minmax`) two-argument `max` / `min`, and calls of statement-bodied helpers branch."""
+        if isinstance(n, ast.IfExp):
+            return self._branch(n.test, env, lambda: self.valk(n.body, env, k), lambda: self.valk(n.orelse, env, k))
+        if isinstance(n, ast.Call):
+            f = ast.unparse(n.func)
+            if f in self.helpers:
+                fn, params = self.helpers[f]
+                if any(isinstance(a, ast.Starred) for a in n.args) or any(kw.arg is None for kw in n.keywords):
+                    raise Unsupported(f"call {f}(*…)")
+                bind: dict[str, ast.expr] = dict(zip(params, n.args))
+                for kw in n.keywords:
+                    if kw.arg not in params or kw.arg in bind:
+                        raise Unsupported(f"call {f}: argument {kw.arg}")
+                    bind[kw.arg] = kw.value  # type: ignore[index]
+                defaults = dict(zip(reversed([a.arg for a in fn.args.args]), reversed(fn.args.defaults)))
+                if len(n.args) > len(params) or not set(params) <= set(bind) | set(defaults):
+                    raise Unsupported(f"call {f}: arguments")
+
+                def go(i: int, henv: dict) -> tuple:
+                    if i == len(params):
+                        exits = Exits(fall=lambda e: k(("none",)),
+                                      ret=lambda v, e: k(("none",)) if v is None else self.valk(v, e, k), cont=None)
+                        return self._tree(body_no_doc(fn), henv, exits)
+                    q = params[i]
+                    if q in bind:
+                        return self.valk(bind[q], env, lambda v: go(i + 1, {**henv, q: v}))
+                    return self.valk(defaults[q], {}, lambda v: go(i + 1, {**henv, q: v}))
+
+                return go(0, {})
+            if self.expand_minmax and f in ("max", "min") and len(n.args) == 2 and not n.keywords:
+                def second(va: tuple) -> tuple:
+                    def cmp(vb: tuple) -> tuple:
+                        if va[0] != "v" or vb[0] != "v":
+                            raise Unsupported(f"{f}(...) of a value the translator does not model")
+                        a, b = va[1], vb[1]
+                        # max(a, b) = b if b > a else a;  min(a, b) = b if b < a else a
+                        l, r = (a, b) if f == "max" else (b, a)
+                        ca, cb = self._const(l), self._const(r)
+                        if ca is not None and cb is not None:
+                            return k(vb) if ca < cb else k(va)
+                        return ("if", f"({l} < {r})", k(vb), k(va), None)
+                    return self.valk(n.args[1], env, cmp)
+                return self.valk(n.args[0], env, second)
+        if self.expand_minmax and isinstance(n, ast.BinOp) and self._branches(n):
+            sym = {ast.Add: "+", ast.Sub: "-", ast.Mult: "*", ast.Div: "/"}.get(type(n.op))
+            if sym is None:
+                raise Unsupported(f"operator in {ast.unparse(n)}")
+
+            def right(va: tuple) -> tuple:
+                def done(vb: tuple) -> tuple:
+                    if va[0] != "v" or vb[0] != "v":
+                        return k(("o",))
+                    return k(("v", f"({va[1]} {sym} {vb[1]})"))
+                return self.valk(n.right, env, done)
+            return self.valk(n.left, env, right)
+        if isinstance(n, ast.Tuple) and self._branches(n):
+            def elt(i: int, acc: list) -> tuple:
+                if i == len(n.elts):
+                    return k(("t", acc))
+                return self.valk(n.elts[i], env, lambda v: elt(i + 1, acc + [v]))
+            return elt(0, [])
+        return k(self.value(n, env))
+
+    def _branches(self, n: ast.AST) -> bool:
+        return any(isinstance(x, ast.IfExp) or (isinstance(x, ast.Call) and (
+            ast.unparse(x.func) in self.helpers or (self.expand_minmax and ast.unparse(x.func) in ("max", "min")
+                                                    and len(x.args) == 2))) for x in ast.walk(n))
+
+    def _tree(self, stmts: list[ast.stmt], env: dict, k: "Exits") -> tuple:
         if not stmts:
-            if fall is None:
+            if k.fall is None:
                 raise Unsupported("control falls off the end of the translated block")
-            return ("leaf", fall(env))
+            return k.fall(env)
         s, rest = stmts[0], stmts[1:]
+        if self.bind is not None:
+            e2 = self.bind(s, env)
+            if e2 is not None:
+                return self._tree(rest, e2, k)
         if isinstance(s, ast.Expr):
             if isinstance(s.value, ast.Constant) and isinstance(s.value.value, str):
-                return self._tree(rest, env, fall, ret, cont)
+                return self._tree(rest, env, k)
             if isinstance(s.value, ast.Call) and ast.unparse(s.value.func).startswith("_logger."):
-                return self._tree(rest, env, fall, ret, cont)
+                return self._tree(rest, env, k)
             raise Unsupported(f"statement {ast.unparse(s)[:60]}")
         if isinstance(s, (ast.Assert, ast.Pass)):
-            return self._tree(rest, env, fall, ret, cont)  # preconditions: part of the model's well-formedness
+            return self._tree(rest, env, k)  # preconditions: part of the model's well-formedness
         if isinstance(s, (ast.Assign, ast.AnnAssign, ast.AugAssign)):
             if isinstance(s, ast.Assign):
                 if len(s.targets) != 1:
@@ -622,50 +864,57 @@ class CTr:
                 tgt, val = s.targets[0], s.value
             elif isinstance(s, ast.AnnAssign):
                 if s.value is None:
-                    return self._tree(rest, env, fall, ret, cont)
+                    return self._tree(rest, env, k)
                 tgt, val = s.target, s.value
             else:
                 tgt = s.target
                 if not isinstance(s.op, (ast.Add, ast.Sub, ast.Mult)):
                     raise Unsupported("augmented assignment operator")
                 val = ast.BinOp(left=ast.Name(id=getattr(tgt, "id", "?"), ctx=ast.Load()), op=s.op, right=s.value)
-            if not isinstance(tgt, ast.Name):
+            names = [tgt] if isinstance(tgt, ast.Name) else (list(tgt.elts) if isinstance(tgt, ast.Tuple) else [])
+            if not names or not all(isinstance(x, ast.Name) for x in names):
                 raise Unsupported(f"assignment target {ast.unparse(tgt)}")
-            if tgt.id in self.skip_targets:
-                return self._tree(rest, env, fall, ret, cont)
-            env = dict(env)
-            if Tr.is_boolish(val) or (isinstance(val, ast.Name) and val.id in env and env[val.id][0] == "p") \
-                    or (ast.unparse(val) in self.attrs and self.attrs[ast.unparse(val)][0] == "p"):
-                env[tgt.id] = ("p", self.p(val, env), (val, dict(env)))
-            else:
-                env[tgt.id] = ("v", self.e(val, env))
-            return self._tree(rest, env, fall, ret, cont)
+            if isinstance(tgt, ast.Name) and tgt.id in self.skip_targets:
+                return self._tree(rest, env, k)
+
+            def assigned(v: tuple) -> tuple:
+                env2 = dict(env)
+                if isinstance(tgt, ast.Name):
+                    env2[tgt.id] = v
+                elif v[0] == "t" and len(v[1]) == len(names):
+                    for x, xv in zip(names, v[1]):
+                        env2[x.id] = xv  # type: ignore[attr-defined]
+                elif v[0] == "o":
+                    for x in names:
+                        env2[x.id] = ("o",)  # type: ignore[attr-defined]
+                else:
+                    raise Unsupported(f"cannot unpack {ast.unparse(val)[:50]}")
+                return self._tree(rest, env2, k)
+
+            return self.valk(val, env, assigned)
         if isinstance(s, ast.If):
-            # polarity of the test, looking through `not` and through locals that merely name a condition
-            test, pol, tenv = s.test, True, env
-            while True:
-                test, q = strip_nots(test)
-                pol = pol == q
-                if isinstance(test, ast.Name) and test.id in tenv and tenv[test.id][0] == "p" and len(tenv[test.id]) > 2:
-                    test, tenv = tenv[test.id][2]
-                    continue
-                break
-            a, b = (s.body, s.orelse) if pol else (s.orelse, s.body)
-            self.p(test, tenv)  # refuse an untranslatable test here, not while printing
-            return ("if", test, tenv, self._tree(a + rest, env, fall, ret, cont), self._tree(b + rest, env, fall, ret, cont))
-        if isinstance(s, ast.Return) and isinstance(s.value, ast.IfExp):  # `return a if c else b`
-            v = s.value
-            return self._tree([ast.If(test=v.test, body=[ast.Return(value=v.body)], orelse=[ast.Return(value=v.orelse)])],
-                              env, fall, ret, cont)
+            return self._branch(s.test, env, lambda: self._tree(s.body + rest, env, k),
+                                lambda: self._tree(s.orelse + rest, env, k))
         if isinstance(s, ast.Return):
-            if ret is None:
+            if k.ret is None:
                 raise Unsupported("return in a block without return mapping")
-            return ("leaf", ret(s.value, env))
+            if isinstance(s.value, ast.IfExp):  # `return a if c else b`
+                v = s.value
+                return self._branch(v.test, env, lambda: self._tree([ast.Return(value=v.body)], env, k),
+                                    lambda: self._tree([ast.Return(value=v.orelse)], env, k))
+            return k.ret(s.value, env)
         if isinstance(s, ast.Continue):
-            if cont is None:
+            if k.cont is None:
                 raise Unsupported("continue outside a loop segment")
-            return ("leaf", cont(env))
+            return k.cont(env)
         raise Unsupported(f"statement {type(s).__name__}: {ast.unparse(s)[:60]}")
+
+
+class Exits:
+    """What happens at the three kinds of exit of a translated block (each returns a decision tree)."""
+
+    def __init__(self, fall=None, ret=None, cont=None):
+        self.fall, self.ret, self.cont = fall, ret, cont
 
 
 class _SubstNames(ast.NodeTransformer):
@@ -1004,26 +1253,6 @@ def gen_manager(repo: pathlib.Path) -> str:
     return out
 
 
-def loop_segment(fn: ast.FunctionDef, after_continue_test) -> tuple[list[ast.stmt], list[ast.stmt], ast.For, list[ast.stmt]]:
-    """Split `calculate`: (statements before the for-loop, loop body after the last skip-`continue`, loop, statements after)."""
-    stmts = body_no_doc(fn)
-    li = next((i for i, s in enumerate(stmts) if isinstance(s, ast.For)), None)
-    if li is None:
-        raise Unsupported(f"{fn.name}: for-loop not found")
-    loop = stmts[li]
-    assert isinstance(loop, ast.For)
-    if loop.orelse:
-        raise Unsupported("for-else")
-    ci = None
-    for i, s in enumerate(loop.body):
-        if isinstance(s, ast.If) and len(s.body) == 1 and isinstance(s.body[0], ast.Continue) and not s.orelse:
-            if after_continue_test(s.test):
-                ci = i
-    if ci is None:
-        raise Unsupported(f"{fn.name}: the skip-`continue` guarding the arithmetic was not found")
-    return stmts[:li], loop.body[ci + 1:], loop, stmts[li + 1:]
-
-
 def zero_inits(pre: list[ast.stmt], skip: set[str]) -> list[str]:
     accs = []
     for s in pre:
@@ -1040,209 +1269,523 @@ def zero_inits(pre: list[ast.stmt], skip: set[str]) -> list[str]:
     return accs
 
 
-def metric_vars(loop_body: list[ast.stmt]) -> dict[str, str]:
-    """`x = metrics.get(ComponentMetricId.M)` -> {M: x}"""
-    out = {}
-    for s in loop_body:
-        if isinstance(s, ast.Assign) and len(s.targets) == 1 and isinstance(s.targets[0], ast.Name) \
-                and isinstance(s.value, ast.Call) and ast.unparse(s.value.func) == "metrics.get" and len(s.value.args) == 1:
-            a = s.value.args[0]
-            if isinstance(a, ast.Attribute) and ast.unparse(a.value) == "ComponentMetricId":
-                out[a.attr] = s.targets[0].id
-    return out
-
-
-def none_check_vars(test: ast.expr) -> set[str] | None:
-    vals = test.values if isinstance(test, ast.BoolOp) and isinstance(test.op, ast.Or) else [test]
-    names = set()
-    for v in vals:
-        if isinstance(v, ast.Compare) and len(v.ops) == 1 and isinstance(v.ops[0], ast.Is) and isinstance(v.left, ast.Name) \
-                and isinstance(v.comparators[0], ast.Constant) and v.comparators[0].value is None:
-            names.add(v.left.id)
-        else:
-            return None
-    return names
-
-
-def tuple_of(names: list[str]) -> str:
-    return names[0] if len(names) == 1 else "(" + ", ".join(names) + ")"
-
-
 def tuple_ty(n: int) -> str:
     return " × ".join(["Rat"] * n)
 
 
-def gen_sample_calc(tree: ast.Module, cls: str, order: list[str], prefix: str, value_ctor: str) -> str:
-    """SoCCalculator / CapacityCalculator: loop segment -> <prefix>Step, tail -> <prefix>Final, required metrics."""
-    fn = find_func(tree, "calculate", cls)
-    mv_holder: dict[str, str] = {}
+def _helper_table(cls: ast.ClassDef, module: ast.AST, skip: str) -> dict[str, tuple[ast.FunctionDef, list[str]]]:
+    """Statement-bodied helpers a translated method may call: methods / static methods of its class (`self.h(…)`,
+    `Cls.h(…)`) and module-level functions (`h(…)`).  Their bodies are executed in place by `CTr.valk`."""
+    out: dict[str, tuple[ast.FunctionDef, list[str]]] = {}
+    for m in cls.body:
+        if not isinstance(m, ast.FunctionDef) or m.name == skip or m.args.vararg or m.args.kwarg or m.args.kwonlyargs:
+            continue
+        decos = [ast.unparse(d) for d in m.decorator_list]
+        params = [a.arg for a in m.args.args]
+        if decos == ["staticmethod"]:
+            out[f"self.{m.name}"] = out[f"{cls.name}.{m.name}"] = (m, params)
+        elif not decos and params:
+            out[f"{params[0]}.{m.name}"] = (m, params[1:])
+    for f in getattr(module, "body", []):
+        if isinstance(f, ast.FunctionDef) and not f.decorator_list and not (f.args.vararg or f.args.kwarg or f.args.kwonlyargs):
+            out.setdefault(f.name, (f, [a.arg for a in f.args.args]))
+    return out
 
-    def is_none_guard(test: ast.expr) -> bool:
-        names = none_check_vars(test)
-        return names is not None and bool(names & set(mv_holder.values()))
 
+def _frame(fn: ast.FunctionDef, what: str) -> tuple[list[ast.stmt], ast.For, list[ast.stmt]]:
+    """`calculate` = statements before its one top-level loop, the loop, statements after it."""
     stmts = body_no_doc(fn)
-    loop = next((s for s in stmts if isinstance(s, ast.For)), None)
-    if loop is None:
-        raise Unsupported(f"{cls}.calculate: loop not found")
-    mv_holder.update(metric_vars(loop.body))
-    if sorted(mv_holder) != sorted(order):
-        raise Unsupported(f"{cls}.calculate reads metrics {sorted(mv_holder)}, expected {sorted(order)}")
-    pre, seg, loop, post = loop_segment(fn, is_none_guard)
-    guard = next(s for s in loop.body if isinstance(s, ast.If) and is_none_guard(s.test))
-    checked = none_check_vars(guard.test)
-    if checked != set(mv_holder.values()):
-        raise Unsupported(f"{cls}.calculate: the None-guard checks {sorted(checked or [])}, not all of {sorted(mv_holder.values())}")
-    accs = zero_inits(pre, {"timestamp"})
-    if not accs:
-        raise Unsupported(f"{cls}.calculate: no accumulators")
-    params = [mv_holder[m] for m in order]
-    tr = Tr(skip_targets={"timestamp"})
-    body = tr.block(seg, {}, "  ", tuple_of(accs), cont=tuple_of(accs))
+    idx = [i for i, s in enumerate(stmts) if isinstance(s, (ast.For, ast.While))]
+    if len(idx) != 1 or not isinstance(stmts[idx[0]], ast.For) or stmts[idx[0]].orelse:  # type: ignore[union-attr]
+        raise Unsupported(f"{what}: expected exactly one top-level for-loop")
+    return stmts[:idx[0]], stmts[idx[0]], stmts[idx[0] + 1:]  # type: ignore[return-value]
+
+
+def _stamps(pre: list[ast.stmt]) -> set[str]:
+    """Locals that start at `_MIN_TIMESTAMP` (bookkeeping of the sample time)."""
+    out = set()
+    for s in pre:
+        t = s.targets[0] if isinstance(s, ast.Assign) and len(s.targets) == 1 else getattr(s, "target", None)
+        v = getattr(s, "value", None)
+        if isinstance(t, ast.Name) and isinstance(v, ast.Name) and v.id == "_MIN_TIMESTAMP":
+            out.add(t.id)
+    return out
+
+
+def _is_none_test(test: ast.expr) -> tuple[ast.expr, bool] | None:
+    """`x is None` -> (x, True); `x is not None` -> (x, False)."""
+    if isinstance(test, ast.Compare) and len(test.ops) == 1 and isinstance(test.comparators[0], ast.Constant) \
+            and test.comparators[0].value is None and isinstance(test.ops[0], (ast.Is, ast.IsNot, ast.Eq, ast.NotEq)):
+        return test.left, isinstance(test.ops[0], (ast.Is, ast.Eq))
+    return None
+
+
+def _stamp_test(test: ast.expr, stamps: set[str]) -> tuple[str, bool] | None:
+    """`<stamp> == _MIN_TIMESTAMP` -> (stamp, True); `!=` -> (stamp, False); either operand order."""
+    if isinstance(test, ast.Compare) and len(test.ops) == 1 and isinstance(test.ops[0], (ast.Eq, ast.NotEq, ast.Is, ast.IsNot)):
+        a, b = test.left, test.comparators[0]
+        for x, y in ((a, b), (b, a)):
+            if isinstance(x, ast.Name) and x.id in stamps and isinstance(y, ast.Name) and y.id == "_MIN_TIMESTAMP":
+                return x.id, isinstance(test.ops[0], (ast.Eq, ast.Is))
+    return None
+
+
+def _stamp_update(s: ast.stmt, stamps: set[str]) -> str | None:
+    """`<stamp> = max(<stamp>, <a sample time>)` (either argument order) -> the stamp."""
+    if isinstance(s, ast.Assign) and len(s.targets) == 1 and isinstance(s.targets[0], ast.Name) and s.targets[0].id in stamps \
+            and isinstance(s.value, ast.Call) and ast.unparse(s.value.func) == "max" and len(s.value.args) == 2 \
+            and not s.value.keywords and any(isinstance(a, ast.Name) and a.id == s.targets[0].id for a in s.value.args):
+        return s.targets[0].id
+    return None
+
+
+def _sample_value(v: ast.expr | None, what: str) -> ast.expr | None:
+    """The `value` of a returned `Sample(timestamp, value)` / `Sample[T](timestamp=…, value=…)`."""
+    if not (isinstance(v, ast.Call) and ast.unparse(v.func).split("[")[0] == "Sample"):
+        raise Unsupported(f"{what} returns {ast.unparse(v)[:60] if v is not None else None}")
+    kw = {k.arg: k.value for k in v.keywords}
+    val = kw.get("value", v.args[1] if len(v.args) > 1 else None)
+    if val is None or len(v.args) > 2 or set(kw) - {"timestamp", "value"}:
+        raise Unsupported(f"{what}: Sample(...) arguments")
+    return val
+
+
+def _subsets(xs: list[str]) -> list[set[str]]:
+    out: list[set[str]] = [set()]
+    for x in xs:
+        out += [o | {x} for o in out]
+    return out[1:]
+
+
+def gen_sample_calc(tree: ast.Module, cls: str, order: list[str], prefix: str, value_ctor: str, roles) -> str:
+    """SoCCalculator / CapacityCalculator.calculate, executed symbolically.
+
+    The loop body is run once for each assumption about which of the metrics it reads are missing.  With all of them
+    present it must reach the end of the body on every path, having moved the sample time forward: that is `<prefix>Step`
+    (a decision tree over the arithmetic conditions, locals inlined, helpers executed in place).  With any metric
+    missing it must `continue` before touching the accumulators or the sample time.  The statements after the loop are
+    run with the sample time moved (-> `<prefix>Final`) and not moved (-> must return `Sample(now, None)`).
+    `roles(post, accs)` names the running sums by what the result does with them: no local name, statement order or
+    position matters."""
+    c = _class_of(tree, cls)
+    what = f"{cls}.calculate"
+    fn = inline_helpers(find_func(c, "calculate"), [c, tree])
+    data_p, work_p = _params(fn, 2, what, method=True)
+    pre, loop, post = _frame(fn, what)
+    if not (isinstance(loop.iter, ast.Name) and loop.iter.id == work_p and isinstance(loop.target, ast.Name)):
+        raise Unsupported(f"{what}: the loop no longer runs over the working batteries")
+    lv = loop.target.id
+    stamps = _stamps(pre)
+    accs = zero_inits(pre, stamps)
+    named = roles(post, accs)  # [(python name, canonical name)]
+    if not named or len({p for p, _ in named}) != len(named):
+        raise Unsupported(f"{what}: running sums {accs} cannot be matched with the result")
+    read = sorted({a.attr for n in ast.walk(loop) if isinstance(n, ast.Call) and isinstance(n.func, ast.Attribute)
+                   and n.func.attr == "get" and len(n.args) == 1 for a in [n.args[0]]
+                   if isinstance(a, ast.Attribute) and ast.unparse(a.value) == "ComponentMetricId"})
+    if read != sorted(order):
+        raise Unsupported(f"{what} reads metrics {read}, expected {sorted(order)}")
+    helpers = _helper_table(c, tree, "calculate")
+
+    def translator(absent: set[str], moved: bool | None) -> CTr:
+        tr = CTr()
+        tr.expand_minmax = True
+        tr.helpers = helpers
+
+        def bind(s: ast.stmt, env: dict):
+            if _stamp_update(s, stamps):
+                return {**env, s.targets[0].id: ("stamp", True)}  # type: ignore[attr-defined]
+            if not (isinstance(s, ast.Assign) and len(s.targets) == 1 and isinstance(s.targets[0], ast.Name)):
+                return None
+            t, v = s.targets[0].id, s.value
+            if isinstance(v, ast.Subscript) and isinstance(v.value, ast.Name) and v.value.id == data_p \
+                    and isinstance(v.slice, ast.Name) and v.slice.id == lv:
+                return {**env, t: ("data",)}
+            if isinstance(v, ast.Call) and isinstance(v.func, ast.Attribute) and v.func.attr == "get" and len(v.args) == 1 \
+                    and not v.keywords and isinstance(v.func.value, ast.Name) and env.get(v.func.value.id, ("?",))[0] == "data" \
+                    and isinstance(v.args[0], ast.Attribute) and ast.unparse(v.args[0].value) == "ComponentMetricId":
+                m = v.args[0].attr
+                return {**env, t: ("none",) if m in absent else ("v", m.lower())}
+            return None
+
+        def decide(test: ast.expr, env: dict):
+            if isinstance(test, ast.Compare) and len(test.ops) == 1 and isinstance(test.ops[0], (ast.In, ast.NotIn)) \
+                    and isinstance(test.left, ast.Name) and test.left.id == lv and isinstance(test.comparators[0], ast.Name) \
+                    and test.comparators[0].id == data_p:
+                return isinstance(test.ops[0], ast.In)  # the battery has an entry (the others are skipped by the model)
+            nt = _is_none_test(test)
+            if nt is not None and isinstance(nt[0], ast.Name) and nt[0].id in env:
+                kind = env[nt[0].id][0]
+                if kind == "none":
+                    return nt[1]
+                if kind in ("v", "p", "t", "data"):
+                    return not nt[1]
+            st = _stamp_test(test, stamps)
+            if st is not None and moved is not None:
+                return st[1] != moved
+            return None
+
+        tr.bind, tr.decide = bind, decide
+        return tr
+
+    def start() -> dict:
+        env: dict = {a: ("v", f"DEAD_{a}") for a in accs}
+        env.update({p: ("v", cn) for p, cn in named})
+        env.update({s: ("stamp", False) for s in stamps})
+        return env
+
+    def leaf(kind: str):
+        def f(env: dict) -> tuple:
+            vals = []
+            for p, _ in named:
+                if env[p][0] != "v":
+                    raise Unsupported(f"{what}: `{p}` becomes a value the translator does not model")
+                vals.append(env[p][1])
+            return ("leaf", (kind, tuple(vals), all(env[s][1] for s in stamps) if stamps else False,
+                             any(env[s][1] for s in stamps)))
+        return f
+
+    def leaves(t: tuple):
+        if t[0] == "leaf":
+            yield t[1]
+        else:
+            yield from leaves(t[2])
+            yield from leaves(t[3])
+
+    body = loop.body
+    tr = translator(set(), None)
+    step = tr.tree(body, start(), Exits(fall=leaf("state"), cont=leaf("skip")))
+    for kind, vals, moved_all, _ in leaves(step):
+        if kind != "state":
+            raise Unsupported(f"{what}: a battery with all its metrics present can be skipped")
+        if not moved_all:
+            raise Unsupported(f"{what}: a battery that counts does not move the sample time forward")
+        if any("DEAD_" in v for v in vals):
+            raise Unsupported(f"{what}: a local that is not part of the result is carried from one battery to the next")
+    for absent in _subsets(order):
+        t = translator(absent, None).tree(body, start(), Exits(fall=leaf("state"), cont=leaf("skip")))
+        init = tuple(cn for _, cn in named)
+        if not (t[0] == "leaf" and t[1][0] == "skip" and t[1][1] == init and not t[1][3]):
+            raise Unsupported(f"{what}: a battery without {sorted(absent)} is not skipped untouched")
+    params = [m.lower() for m in order]
+    canon = [cn for _, cn in named]
     out = (f"/-- metrics a battery needs to count in `{cls}` (order of the parameters below) -/\n"
            f"def {prefix}Required : List String := {lean_strs(order)}\n\n"
-           f"/-- `{cls}.calculate`: loop body for one qualifying battery; state = ({', '.join(accs)}) -/\n"
-           f"def {prefix}Step " + " ".join(f"({a} : Rat)" for a in accs) + " "
-           + " ".join(f"({p} : Rat)" for p in params) + f" : {tuple_ty(len(accs))} :=\n{body}\n\n")
-    # tail: after `if timestamp == _MIN_TIMESTAMP: return Sample(now, None)`
-    gi = next((i for i, s in enumerate(post) if isinstance(s, ast.If) and ast.unparse(s.test) == "timestamp == _MIN_TIMESTAMP"), None)
-    tail: list[ast.stmt]
-    if gi is not None:
-        tail = post[gi + 1:]
-        if post[:gi]:
-            raise Unsupported(f"{cls}.calculate: statements between the loop and the no-data return")
-    else:
-        # CapacityCalculator: `return (Sample(now, None) if timestamp == _MIN_TIMESTAMP else Sample(timestamp, Energy...(x)))`
-        if not (len(post) == 1 and isinstance(post[0], ast.Return) and isinstance(post[0].value, ast.IfExp)
-                and ast.unparse(post[0].value.test) == "timestamp == _MIN_TIMESTAMP"):
-            raise Unsupported(f"{cls}.calculate: tail shape")
-        tail = [ast.Return(value=post[0].value.orelse)]
+           f"/-- `{cls}.calculate`: loop body for one qualifying battery; state = ({', '.join(canon)}) -/\n"
+           f"def {prefix}Step " + " ".join(f"({a} : Rat)" for a in canon) + " "
+           + " ".join(f"({p} : Rat)" for p in params) + f" : {tuple_ty(len(canon))} :=\n"
+           + tr.show(step, "  ", lambda x: x[1][0] if len(x[1]) == 1 else "(" + ", ".join(x[1]) + ")") + "\n\n")
 
-    def ret(v, env):
-        # Sample(timestamp=timestamp, value=Percentage.from_percent(pct)) / Sample[Energy](timestamp, Energy.from_watt_hours(x))
-        if not isinstance(v, ast.Call) or not ast.unparse(v.func).startswith("Sample"):
-            raise Unsupported(f"{cls}.calculate returns {ast.unparse(v)[:60]}")
-        args = list(v.args) + [k.value for k in v.keywords if k.arg == "value"]
-        val = args[-1]
-        if not (isinstance(val, ast.Call) and ast.unparse(val.func) == value_ctor and len(val.args) + len(val.keywords) == 1):
-            raise Unsupported(f"{cls}.calculate: expected {value_ctor}(x)")
-        inner = val.args[0] if val.args else val.keywords[0].value
-        return tr2.e(inner, env)
+    # after the loop
+    def final(moved: bool) -> tuple:
+        trf = translator(set(), moved)
 
-    tr2 = Tr(skip_targets={"timestamp"})
-    body = tr2.block(tail, {}, "  ", None, ret=ret)
+        def ret(v, env):
+            val = _sample_value(v, what)
+            if isinstance(val, ast.Constant) and val.value is None:
+                return ("leaf", ("nodata",))
+            if not (isinstance(val, ast.Call) and ast.unparse(val.func) == value_ctor and len(val.args) + len(val.keywords) == 1):
+                raise Unsupported(f"{what}: expected {value_ctor}(x)")
+            inner = val.args[0] if val.args else val.keywords[0].value
+            def done(x: tuple) -> tuple:
+                if x[0] != "v":
+                    raise Unsupported(f"{what}: the result is a value the translator does not model")
+                return ("leaf", ("value", x[1]))
+
+            return trf.valk(inner, env, done)
+
+        return trf.tree(post, start(), Exits(ret=ret))
+
+    if final(False) != ("leaf", ("nodata",)):
+        raise Unsupported(f"{what}: without a qualifying battery the result is not `Sample(now, None)`")
+    fin = final(True)
+    if any(x[0] != "value" or "DEAD_" in x[1] for x in leaves(fin)):
+        raise Unsupported(f"{what}: with a qualifying battery the result is not a value of the running sums")
     out += (f"/-- `{cls}.calculate`: value returned once at least one battery qualified -/\n"
-            f"def {prefix}Final " + " ".join(f"({a} : Rat)" for a in accs) + f" : Rat :=\n{body}\n")
+            f"def {prefix}Final " + " ".join(f"({a} : Rat)" for a in canon) + " : Rat :=\n"
+            + tr.show(fin, "  ", lambda x: x[1]) + "\n")
     return out
+
+
+def soc_roles(post: list[ast.stmt], accs: list[str]) -> list[tuple[str, str]]:
+    """total = the running sum tested with `is_close_to_zero`; used = the other one the result reads."""
+    inside = {n.id for s in post for c in ast.walk(s) if isinstance(c, ast.Call) and ast.unparse(c.func).endswith("is_close_to_zero")
+              for n in ast.walk(c) if isinstance(n, ast.Name) and n.id in accs}
+    read = {n.id for s in post for n in ast.walk(s) if isinstance(n, ast.Name) and isinstance(n.ctx, ast.Load) and n.id in accs}
+    if len(inside) != 1 or len(read - inside) != 1:
+        return []
+    return [((read - inside).pop(), "used_capacity_x100"), (inside.pop(), "total_capacity_x100")]
+
+
+def cap_roles(post: list[ast.stmt], accs: list[str]) -> list[tuple[str, str]]:
+    read = {n.id for s in post for n in ast.walk(s) if isinstance(n, ast.Name) and isinstance(n.ctx, ast.Load) and n.id in accs}
+    return [(read.pop(), "total_capacity")] if len(read) == 1 else []
+
+
+def stmt_paths(stmts: list[ast.stmt], path: tuple = ()):
+    """(simple statement, path) for every statement on every path through a statement list; statements after an `if`
+    continue both arms, a path ends at `return` / `raise`; loops and `with` are not entered."""
+    for i, s in enumerate(stmts):
+        if isinstance(s, ast.If):
+            yield from stmt_paths(s.body + stmts[i + 1:], path + ((s.test, True),))
+            yield from stmt_paths(s.orelse + stmts[i + 1:], path + ((s.test, False),))
+            return
+        yield s, path
+        if isinstance(s, (ast.Return, ast.Raise)):
+            return
+
+
+def gen_validated_bounds(c: ast.ClassDef) -> str:
+    """The function that turns the fetched values of one component into `PowerBounds(results[0], …)` — a closure of
+    `calculate`, a method or a static method, whatever its name and its other parameters / results.  Established:
+    the bounds are built on exactly the paths where `len(results) == len(<metric ids parameter>)`, and every other
+    path returns `None` (alone or as the first component of a tuple)."""
+    cands = [f for f in ast.walk(c) if isinstance(f, ast.FunctionDef)
+             and any(isinstance(n, ast.Call) and ast.unparse(n.func) == "PowerBounds" for s in f.body
+                     for n in ast.walk(s) if not isinstance(s, ast.FunctionDef))]
+    if len(cands) != 1:
+        raise Unsupported(f"PowerBoundsCalculator: expected one function building PowerBounds(...) from the fetched values, found {len(cands)}")
+    gv = cands[0]
+    params = {a.arg for a in gv.args.args}
+    body = [s for s in body_no_doc(gv) if not isinstance(s, ast.Nonlocal)]
+    calls = [n for s in body for n in ast.walk(s) if isinstance(n, ast.Call) and ast.unparse(n.func) == "PowerBounds"]
+    if len(calls) != 1:
+        raise Unsupported("get_validated_bounds: expected exactly one PowerBounds(...)")
+    call = calls[0]
+    res_vars = {x.value.id for x in ast.walk(call) if isinstance(x, ast.Subscript) and isinstance(x.value, ast.Name)}
+    if len(res_vars) != 1:
+        raise Unsupported("get_validated_bounds: the returned bounds are no longer read from one list of results")
+    (results,) = res_vars
+
+    def complete(path: tuple) -> bool | None:
+        """True / False: the path has established len(results) == / != len(ids); None: neither."""
+        out = None
+        for test, pol in path:
+            t, q = strip_nots(test)
+            if isinstance(t, ast.Compare) and len(t.ops) == 1 and isinstance(t.ops[0], (ast.Eq, ast.NotEq)):
+                sides = [t.left, t.comparators[0]]
+                srcs = [ast.unparse(x) for x in sides]
+                if f"len({results})" in srcs and all(isinstance(x, ast.Call) and ast.unparse(x.func) == "len" and len(x.args) == 1
+                                                     for x in sides):
+                    other = sides[1 - srcs.index(f"len({results})")].args[0]  # type: ignore[attr-defined]
+                    if isinstance(other, ast.Name) and other.id in params:
+                        out = (isinstance(t.ops[0], ast.Eq) == (pol == q))
+        return out
+
+    holder = None  # local the bounds are assigned to, if any
+    seen_build = False
+    for s, path in stmt_paths(body):
+        has = any(n is call for n in ast.walk(s))
+        if has:
+            seen_build = True
+            if complete(path) is not True:
+                raise Unsupported("get_validated_bounds: PowerBounds(...) is built without `len(results) == len(comp_metric_ids)`")
+            if isinstance(s, ast.Assign) and len(s.targets) == 1 and isinstance(s.targets[0], ast.Name) and s.value is call:
+                holder = s.targets[0].id
+            elif not (isinstance(s, ast.Return) and (s.value is call or (isinstance(s.value, ast.Tuple) and s.value.elts[0] is call))):
+                raise Unsupported("get_validated_bounds: PowerBounds(...) is neither returned nor assigned to a local")
+        if isinstance(s, ast.Return):
+            v = s.value.elts[0] if isinstance(s.value, ast.Tuple) and s.value.elts else s.value
+            is_none = v is None or (isinstance(v, ast.Constant) and v.value is None)
+            is_bounds = v is call or (isinstance(v, ast.Name) and holder is not None and v.id == holder)
+            ok = complete(path)
+            if ok is True and not is_bounds:
+                raise Unsupported("get_validated_bounds: a component with all its metrics does not return its bounds")
+            if ok is not True and not is_none:
+                raise Unsupported("get_validated_bounds: the `len(results) != len(comp_metric_ids)` guard changed")
+    if not seen_build:
+        raise Unsupported("get_validated_bounds: PowerBounds(...) is unreachable")
+    return ("/-- `get_validated_bounds`: `results` = the present values, in the order of the metric id list -/\n"
+            f"def validatedBounds (results : List Rat) : PowerBounds :=\n  "
+            f"{CTr(pb_fields=PB_FIELDS).e(call, {results: ('v', 'results')})}\n\n")
+
+
+def _empty_test(test: ast.expr) -> tuple[str, bool] | None:
+    """(list variable, True if the test holds when the list is EMPTY): `len(x) == 0`, `not x`, `x`, `len(x) > 0`, …"""
+    t, pol = strip_nots(test)
+    if isinstance(t, ast.Name):
+        return t.id, not pol
+    if isinstance(t, ast.Compare) and len(t.ops) == 1:
+        a, b = t.left, t.comparators[0]
+        op = type(t.ops[0])
+        if isinstance(b, ast.Call) and ast.unparse(b.func) == "len":  # constant on the left: mirror
+            a, b = b, a
+            op = {ast.Lt: ast.Gt, ast.Gt: ast.Lt, ast.LtE: ast.GtE, ast.GtE: ast.LtE}.get(op, op)
+        if isinstance(a, ast.Call) and ast.unparse(a.func) == "len" and len(a.args) == 1 and isinstance(a.args[0], ast.Name) \
+                and isinstance(b, ast.Constant) and isinstance(b.value, int) and not isinstance(b.value, bool):
+            table = {(ast.Eq, 0): True, (ast.NotEq, 0): False, (ast.Gt, 0): False, (ast.LtE, 0): True,
+                     (ast.Lt, 1): True, (ast.GtE, 1): False}
+            if (op, b.value) in table:
+                return a.args[0].id, table[(op, b.value)] == pol
+    return None
 
 
 def gen_power_bounds_calc(tree: ast.Module) -> str:
     cls = "PowerBoundsCalculator"
-    init = find_func(tree, "__init__", cls)
+    c = _class_of(tree, cls)
+    what = f"{cls}.calculate"
+    init = find_func(c, "__init__")
     bat_ids = metric_list(assigned_value(init.body, "self._battery_metrics"), "_battery_metrics")
     inv_ids = metric_list(assigned_value(init.body, "self._inverter_metrics"), "_inverter_metrics")
     out = ("/-- `PowerBoundsCalculator`: metric ids requested per battery / inverter, in the order `get_validated_bounds` reads them -/\n"
            f"def batteryMetricIds : List String := {lean_strs(bat_ids)}\n"
            f"def inverterMetricIds : List String := {lean_strs(inv_ids)}\n\n")
-    fn = find_func(tree, "calculate", cls)
-    gv = find_func(fn, "get_validated_bounds")
-    _, ids_param = _params(gv, 2, "get_validated_bounds")
-    rets = [s for s in ast.walk(gv) if isinstance(s, ast.Return) and isinstance(s.value, ast.Call)
-            and ast.unparse(s.value.func) == "PowerBounds"]
-    if len(rets) != 1:
-        raise Unsupported("get_validated_bounds: expected exactly one `return PowerBounds(...)`")
-    res_vars = {x.value.id for x in ast.walk(rets[0].value) if isinstance(x, ast.Subscript) and isinstance(x.value, ast.Name)}
-    if len(res_vars) != 1:
-        raise Unsupported("get_validated_bounds: the returned bounds are no longer read from one list of results")
-    (results,) = res_vars
-    guards = {f"len({results}) != len({ids_param})", f"len({ids_param}) != len({results})"}
-    guard_ok = any(isinstance(s, ast.If) and ast.unparse(s.test) in guards
-                   and len(s.body) == 1 and isinstance(s.body[0], ast.Return)
-                   and (s.body[0].value is None or (isinstance(s.body[0].value, ast.Constant) and s.body[0].value.value is None))
-                   for s in gv.body)
-    if not guard_ok:
-        raise Unsupported("get_validated_bounds: the `len(results) != len(comp_metric_ids)` guard changed")
-    out += ("/-- `get_validated_bounds`: `results` = the present values, in the order of the metric id list -/\n"
-            f"def validatedBounds (results : List Rat) : PowerBounds :=\n  "
-            f"{CTr(pb_fields=PB_FIELDS).e(rets[0].value, {results: ('v', 'results')})}\n\n")
+    out += gen_validated_bounds(c)
+    fn = find_func(c, "calculate")
+    pre, loop, post = _frame(fn, what)
+    pre = [s for s in pre if not isinstance(s, ast.FunctionDef)]
+    stamps_all = _stamps(pre)
+    # the sample time of the result: the stamp the statements after the loop compare with _MIN_TIMESTAMP
+    stamps = {n.id for s in post for n in ast.walk(s) if isinstance(n, ast.Name) and n.id in stamps_all}
+    if len(stamps) != 1:
+        raise Unsupported(f"{what}: the sample time of the result was not found")
+    accs = zero_inits(pre, stamps_all)
+    # locals that merely name the two metric lists
+    alias = {"self._battery_metrics": "bat", "self._inverter_metrics": "inv"}
+    for n in ast.walk(fn):
+        if isinstance(n, ast.Assign) and len(n.targets) == 1 and isinstance(n.targets[0], ast.Name) \
+                and ast.unparse(n.value) in ("self._battery_metrics", "self._inverter_metrics"):
+            alias[n.targets[0].id] = alias[ast.unparse(n.value)]
 
-    def is_empty_test(test: ast.expr, var: str) -> bool:
-        return ast.unparse(test) in (f"len({var}) == 0", f"0 == len({var})", f"not {var}", f"len({var}) < 1")
-
-    def is_inv_guard(test: ast.expr) -> bool:
-        return is_empty_test(test, inv_var)  # type: ignore[arg-type]
-
-    # names of the two per-group values (by the calls that produce them)
-    loop = next((s for s in body_no_doc(fn) if isinstance(s, ast.For)), None)
-    if loop is None:
-        raise Unsupported("PowerBoundsCalculator.calculate: loop not found")
-    agg_var = inv_var = bat_var = None
-    for s in loop.body:
-        if isinstance(s, ast.AnnAssign) and s.value is not None:
-            s = ast.Assign(targets=[s.target], value=s.value)
-        if isinstance(s, ast.Assign) and isinstance(s.targets[0], ast.Name) and isinstance(s.value, ast.Call):
-            f = ast.unparse(s.value.func)
-            if f == "_aggregate_battery_power_bounds" and len(s.value.args) == 1:
-                agg_var, bat_var = s.targets[0].id, ast.unparse(s.value.args[0])
-            if f == "get_bounds_list" and len(s.value.args) == 2 and ast.unparse(s.value.args[1]) == "self._inverter_metrics":
-                inv_var = s.targets[0].id
-    if not (agg_var and inv_var and bat_var):
-        raise Unsupported("PowerBoundsCalculator.calculate: aggregated battery bounds / inverter bounds assignments not found")
-    bat_guard = any(isinstance(s, ast.If) and is_empty_test(s.test, bat_var) and len(s.body) == 1
-                    and isinstance(s.body[0], ast.Continue) and not s.orelse for s in loop.body)
-    if not bat_guard:
-        raise Unsupported("PowerBoundsCalculator.calculate: `if len(battery_bounds) == 0: continue` not found")
-    pre, seg, loop, post = loop_segment(fn, is_inv_guard)
-    # bookkeeping of the sample time: locals that start at _MIN_TIMESTAMP (not part of the arithmetic)
-    stamps = set()
-    for s0 in pre:
-        t0 = s0.targets[0] if isinstance(s0, ast.Assign) and len(s0.targets) == 1 else getattr(s0, "target", None)
-        if isinstance(t0, ast.Name) and isinstance(getattr(s0, "value", None), ast.Name) and s0.value.id == "_MIN_TIMESTAMP":  # type: ignore[union-attr]
-            stamps.add(t0.id)
-    accs_src = zero_inits(pre, stamps)
-    # final return: SystemBounds(timestamp=…, inclusion_bounds=Bounds(Power.from_watts(a), Power.from_watts(b)), exclusion_bounds=…)
-    final = [s for s in post if isinstance(s, ast.Return)]
-    if len(final) != 1 or not isinstance(final[0].value, ast.Call) or not ast.unparse(final[0].value.func).endswith("SystemBounds"):
-        raise Unsupported("PowerBoundsCalculator.calculate: final return")
-    kws = {k.arg: k.value for k in final[0].value.keywords}
-
+    # result: SystemBounds(timestamp=…, inclusion_bounds=Bounds(Power.from_watts(a), Power.from_watts(b)), exclusion_bounds=…)
     def pw(n: ast.expr) -> ast.expr:
-        if isinstance(n, ast.Call) and ast.unparse(n.func) == "Power.from_watts" and len(n.args) == 1 and not n.keywords:
-            return n.args[0]
+        if isinstance(n, ast.Call) and ast.unparse(n.func) == "Power.from_watts" and len(n.args) + len(n.keywords) == 1:
+            return n.args[0] if n.args else n.keywords[0].value
         raise Unsupported(f"SystemBounds value {ast.unparse(n)[:50]}")
 
-    def bnd(n: ast.expr | None) -> tuple[ast.expr, ast.expr]:
-        if isinstance(n, ast.Call) and ast.unparse(n.func).endswith("Bounds") and len(n.args) == 2 and not n.keywords:
-            return pw(n.args[0]), pw(n.args[1])
-        if isinstance(n, ast.Call) and ast.unparse(n.func).endswith("Bounds") and not n.args:
+    def bnd(n: ast.expr | None) -> tuple[ast.expr, ast.expr] | None:
+        if n is None or (isinstance(n, ast.Constant) and n.value is None):
+            return None
+        if isinstance(n, ast.Call) and ast.unparse(n.func).endswith("Bounds"):
             kk = {k.arg: k.value for k in n.keywords}
-            if set(kk) != {"lower", "upper"}:
-                raise Unsupported("SystemBounds bounds shape")
-            return pw(kk["lower"]), pw(kk["upper"])
+            lo = kk.get("lower", n.args[0] if n.args else None)
+            hi = kk.get("upper", n.args[1] if len(n.args) > 1 else None)
+            if lo is not None and hi is not None and len(n.args) <= 2 and not set(kk) - {"lower", "upper"}:
+                return pw(lo), pw(hi)
         raise Unsupported("SystemBounds bounds shape")
 
-    il, iu = bnd(kws.get("inclusion_bounds"))
-    el, eu = bnd(kws.get("exclusion_bounds"))
-    # the four running sums, in the canonical order (incl lower, incl upper, excl lower, excl upper): a running sum is
-    # identified by the bound of the result it feeds, not by its name or by the position of its initialisation
+    def system_bounds(v: ast.expr | None):
+        if not (isinstance(v, ast.Call) and ast.unparse(v.func).endswith("SystemBounds")):
+            raise Unsupported(f"{what}: final return")
+        kws = {k.arg: k.value for k in v.keywords}
+        for name, a in zip(("timestamp", "inclusion_bounds", "exclusion_bounds"), v.args):
+            kws[name] = a
+        return bnd(kws.get("inclusion_bounds")), bnd(kws.get("exclusion_bounds"))
+
+    finals = [system_bounds(s.value) for s, _ in stmt_paths(post) if isinstance(s, ast.Return)]
+    full = [f for f in finals if f[0] is not None and f[1] is not None]
+    if len(full) != 1:
+        raise Unsupported(f"{what}: expected one return of SystemBounds with both bounds")
+    (il, iu), (el, eu) = full[0]
     canon = ["inclusion_bounds_lower", "inclusion_bounds_upper", "exclusion_bounds_lower", "exclusion_bounds_upper"]
-    roles = [x for r in (il, iu, el, eu) for x in sorted(_names_in(r) & set(accs_src))]
-    if len(accs_src) != 4 or len(roles) != 4 or len(set(roles)) != 4 \
-            or any(len(_names_in(r) & set(accs_src)) != 1 for r in (il, iu, el, eu)):
-        raise Unsupported(f"PowerBoundsCalculator.calculate: expected 4 accumulators, one per streamed bound; found {accs_src}")
-    env = {py: ("v", c) for py, c in zip(roles, canon)}
-    tr = CTr(skip_targets=stamps, pb_fields=PB_FIELDS)
-    state = lambda e: "(" + ", ".join(e[py][1] for py in roles) + ")"  # noqa: E731
-    body = tr.block(fold_sum_loops(seg), {**env, agg_var: ("v", "aggregated_bat_bounds"), inv_var: ("v", "inverter_bounds")},
-                    "  ", state, cont=state)
+    roles = [x for r in (il, iu, el, eu) for x in sorted(_names_in(r) & set(accs))]
+    if len(roles) != 4 or len(set(roles)) != 4 or any(len(_names_in(r) & set(accs)) != 1 for r in (il, iu, el, eu)):
+        raise Unsupported(f"{what}: expected 4 accumulators, one per streamed bound; found {accs}")
+    named = list(zip(roles, canon))
+
+    def translator(empty: set[str], moved: bool | None) -> CTr:
+        tr = CTr(pb_fields=PB_FIELDS)
+
+        def bind(s: ast.stmt, env: dict):
+            if _stamp_update(s, stamps):
+                return {**env, s.targets[0].id: ("stamp", True)}  # type: ignore[attr-defined]
+            if not (isinstance(s, (ast.Assign, ast.AnnAssign)) and getattr(s, "value", None) is not None):
+                return None
+            tgt = s.targets[0] if isinstance(s, ast.Assign) and len(s.targets) == 1 else getattr(s, "target", None)
+            v = s.value
+            if isinstance(v, ast.Call):
+                which = {alias[ast.unparse(a)] for a in list(v.args) + [k.value for k in v.keywords] if ast.unparse(a) in alias}
+                if len(which) == 1:  # `<list>[, <time>] = <fetch the validated bounds>(…, self._battery_metrics, …)`
+                    w = which.pop()
+                    names = [tgt] if isinstance(tgt, ast.Name) else (list(tgt.elts) if isinstance(tgt, ast.Tuple) else [])
+                    if not names or not all(isinstance(x, ast.Name) for x in names):
+                        raise Unsupported(f"{what}: target of {ast.unparse(v)[:40]}")
+                    e2 = {**env, names[0].id: ("v", "inverter_bounds" if w == "inv" else "battery_bounds", w)}
+                    for x in names[1:]:
+                        e2[x.id] = ("o",)
+                    return e2
+                if ast.unparse(v.func) == "_aggregate_battery_power_bounds" and len(v.args) == 1 and not v.keywords \
+                        and isinstance(v.args[0], ast.Name) and isinstance(tgt, ast.Name):
+                    a = env.get(v.args[0].id, ("?",))
+                    if not (len(a) > 2 and a[2] == "bat"):
+                        raise Unsupported(f"{what}: _aggregate_battery_power_bounds is not applied to the battery bounds")
+                    if "bat" in empty:
+                        raise Unsupported(f"{what}: the battery bounds are aggregated before the empty list is skipped")
+                    return {**env, tgt.id: ("v", "aggregated_bat_bounds")}
+            return None
+
+        def decide(test: ast.expr, env: dict):
+            et = _empty_test(test)
+            if et is not None and et[0] in env and len(env[et[0]]) > 2 and env[et[0]][2] in ("bat", "inv"):
+                return et[1] == (env[et[0]][2] in empty)
+            st = _stamp_test(test, stamps)
+            if st is not None and moved is not None:
+                return st[1] != moved
+            return None
+
+        tr.bind, tr.decide = bind, decide
+        return tr
+
+    def start() -> dict:
+        env: dict = {p: ("v", cn) for p, cn in named}
+        env.update({s: ("stamp", False) for s in stamps_all})
+        return env
+
+    def leaf(kind: str):
+        def f(env: dict) -> tuple:
+            vals = []
+            for p, _ in named:
+                if env[p][0] != "v":
+                    raise Unsupported(f"{what}: `{p}` becomes a value the translator does not model")
+                vals.append(env[p][1])
+            (st,) = stamps
+            return ("leaf", (kind, tuple(vals), env[st][0] == "stamp" and env[st][1]))
+        return f
+
+    def leaves(t: tuple):
+        if t[0] == "leaf":
+            yield t[1]
+        else:
+            yield from leaves(t[2])
+            yield from leaves(t[3])
+
+    body = fold_sum_loops(loop.body)
+    tr = translator(set(), None)
+    step = tr.tree(body, start(), Exits(fall=leaf("state"), cont=leaf("skip")))
+    for kind, vals, moved in leaves(step):
+        if kind != "state" or not moved:
+            raise Unsupported(f"{what}: a battery set with battery and inverter bounds must count and move the sample time")
+    for empty in ({"bat"}, {"inv"}, {"bat", "inv"}):
+        t = translator(empty, None).tree(body, start(), Exits(fall=leaf("state"), cont=leaf("skip")))
+        if t != ("leaf", ("skip", tuple(canon), False)):
+            raise Unsupported(f"{what}: a battery set without {' / '.join(sorted(empty))} bounds is not skipped untouched")
     out += (f"/-- `PowerBoundsCalculator.calculate`: loop body for one contributing battery set; state = ({', '.join(canon)}) -/\n"
             "def calcStep " + " ".join(f"({a} : Rat)" for a in canon)
-            + f" (aggregated_bat_bounds : PowerBounds) (inverter_bounds : List PowerBounds) : {tuple_ty(4)} :=\n{body}\n\n")
-    tr2 = CTr()
+            + f" (aggregated_bat_bounds : PowerBounds) (inverter_bounds : List PowerBounds) : {tuple_ty(4)} :=\n"
+            + tr.show(step, "  ", lambda x: "(" + ", ".join(x[1]) + ")") + "\n\n")
+
+    def final(moved: bool) -> tuple:
+        trf = translator(set(), moved)
+
+        def ret(v, env):
+            incl, excl = system_bounds(v)
+            if incl is None and excl is None:
+                return ("leaf", ("nodata",))
+            if incl is None or excl is None:
+                raise Unsupported(f"{what}: SystemBounds with only one of the two bounds")
+            return ("leaf", ("value", tuple(trf.e(x, env) for x in (incl[0], excl[0], excl[1], incl[1]))))
+
+        return trf.tree(post, start(), Exits(ret=ret))
+
+    if final(False) != ("leaf", ("nodata",)):
+        raise Unsupported(f"{what}: without a contributing battery set the result is not SystemBounds(None, None)")
+    fin = final(True)
+    if fin[0] != "leaf" or fin[1][0] != "value":
+        raise Unsupported(f"{what}: with a contributing battery set the result is not the running bounds")
+    a, b, c2, d = fin[1][1]
     out += ("/-- `PowerBoundsCalculator.calculate`: the `SystemBounds` streamed once a battery set contributed -/\n"
-            "def calcResult " + " ".join(f"({a} : Rat)" for a in canon) + " : PowerBounds :=\n"
-            f"  {{ inclusion_lower := {tr2.e(il, env)}, exclusion_lower := {tr2.e(el, env)}, "
-            f"exclusion_upper := {tr2.e(eu, env)}, inclusion_upper := {tr2.e(iu, env)} }}\n")
+            "def calcResult " + " ".join(f"({x} : Rat)" for x in canon) + " : PowerBounds :=\n"
+            f"  {{ inclusion_lower := {a}, exclusion_lower := {b}, exclusion_upper := {c2}, inclusion_upper := {d} }}\n")
     return out
 
 
@@ -1320,9 +1863,9 @@ def generate(repo: pathlib.Path) -> str:
         gen_manager(repo),
         gen_power_bounds_calc(calc),
         gen_sample_calc(calc, "SoCCalculator", ["CAPACITY", "SOC_UPPER_BOUND", "SOC_LOWER_BOUND", "SOC"], "soc",
-                        "Percentage.from_percent"),
+                        "Percentage.from_percent", soc_roles),
         gen_sample_calc(calc, "CapacityCalculator", ["CAPACITY", "SOC_UPPER_BOUND", "SOC_LOWER_BOUND"], "cap",
-                        "Energy.from_watt_hours"),
+                        "Energy.from_watt_hours", cap_roles),
         gen_methods_tables(repo),
         gen_base_types(repo),
         "end Extracted.Pool\n",
